@@ -25,7 +25,7 @@ func (r *Run) zero(t types.Type) Value {
 			return r.TB.Const(BVSort(w), 0)
 		case u.Info()&types.IsFloat != 0:
 			return r.TB.Float(0)
-		case u.Kind() == types.UntypedNil:
+		case u.Kind() == types.UntypedNil, u.Kind() == types.Invalid:
 			return nil
 		}
 	case *types.Pointer:
